@@ -247,7 +247,26 @@ def gen_case(rng, idx):
     c["globs"] = gen_rules(rng, 0.3, RULE_NAMES)
     c["types"] = [(rng.choice(EXTS), rng.random() < 0.35) for _ in range(rng.randint(1, 2))] if rng.random() < 0.3 else []
     c["ignore_files"] = [gen_rules(rng, 1.0, RULE_NAMES) for _ in range(rng.randint(1, 2))] if rng.random() < 0.35 else []
-    c["global"] = gen_rules(rng, 0.35, RULE_NAMES)
+    # where git finds its global ignore file: core.excludesFile of ~/.gitconfig, else of $XDG_CONFIG_HOME/git/config
+    # (~/.config/git/config without XDG_CONFIG_HOME), else the default $XDG_CONFIG_HOME/git/ignore.  Each candidate file
+    # gets its own rules, so choosing the wrong one shows.
+    c["genv"] = dict(home=rng.choice([None, None, "noexcl", "excl"]), xdg=rng.choice([None, None, "noexcl", "excl"]),
+                     xdg_set=rng.random() < 0.75, default_present=rng.random() < 0.8)
+    p_glob = rng.choice([0.0, 0.5, 1.0, 1.0])
+    c["global_files"] = {k: gen_rules(rng, p_glob, RULE_NAMES) for k in ("home", "xdg", "default")}
+    if rng.random() < 0.15:
+        # a share of the cases makes the choice of the global file decisive: git rules heard everywhere, every
+        # candidate file hides different entries that exist in the first root
+        names = [k["name"] for k in roots[0]["kids"] if "content" not in k and k["name"] != ".git" and not k["name"].endswith(".")]
+        for k in c["global_files"]:
+            if names:
+                c["global_files"][k] = [dict(neg=False, dironly=False, anch=False, name=n)
+                                        for n in rng.sample(names, min(len(names), rng.randint(1, 2)))]
+        c["genv"]["home"] = rng.choice([None, "noexcl", "noexcl", "excl"])
+        c["genv"]["xdg"] = rng.choice(["noexcl", "excl", "excl"])
+        c["flags"].update(vcs=False, glob=False, norequire=True, u=0)
+        c["no_ignore"] = False
+    c["global"] = effective_global(c)
     c["max_depth"] = rng.choice([None, None, None, None, 0, 1, 2, 3])
     c["threads"] = rng.choice([1, 1, 3])
     # a share of the cases follows symbolic links (-L): links to directories and files inside the first root
@@ -263,6 +282,47 @@ def gen_case(rng, idx):
                 else:
                     c["globs"] = [dict(neg=False, dironly=False, anch=False, name=rng.choice(["x.rs", "a.rs", "a", "y.py"]))]
     return c
+
+
+def genv_of(c):
+    return c.get("genv") or dict(home=None, xdg=None, xdg_set=True, default_present=True)
+
+
+def effective_global(c):
+    """git's documented order (git-config core.excludesFile, gitignore(5)): ~/.gitconfig's value wins over the XDG
+       config's; if neither sets it, the default $XDG_CONFIG_HOME/git/ignore (or ~/.config/git/ignore)"""
+    g = genv_of(c)
+    files = c.get("global_files") or dict(home=[], xdg=[], default=c.get("global", []))
+    if g["home"] == "excl":
+        return files["home"]
+    if g["xdg"] == "excl":
+        return files["xdg"]
+    return files["default"] if g["default_present"] else []
+
+
+def write_global_env(c, base):
+    """materialise HOME and the XDG directory of the case; returns (HOME, XDG_CONFIG_HOME or None)"""
+    g = genv_of(c)
+    files = c.get("global_files") or dict(home=[], xdg=[], default=c.get("global", []))
+    home = os.path.join(base, "home")
+    xdgdir = os.path.join(base, "xdg") if g["xdg_set"] else os.path.join(home, ".config")
+    os.makedirs(os.path.join(xdgdir, "git"), exist_ok=True)
+    os.makedirs(home, exist_ok=True)
+    os.makedirs(os.path.join(base, "xdg"), exist_ok=True)      # also a possible working directory
+    for key, cfg, target in (("home", os.path.join(home, ".gitconfig"), os.path.join(base, "excl-home")),
+                             ("xdg", os.path.join(xdgdir, "git", "config"), os.path.join(base, "excl-xdg"))):
+        if g[key] is None:
+            continue
+        with open(cfg, "w") as f:
+            f.write("[user]\n\tname = nobody\n[core]\n\tautocrlf = false\n")
+            if g[key] == "excl":
+                f.write("\texcludesFile = %s\n" % target)
+        with open(target, "w") as f:
+            f.write(rules_text(files[key]))
+    if g["default_present"]:
+        with open(os.path.join(xdgdir, "git", "ignore"), "w") as f:
+            f.write(rules_text(files["default"]))
+    return home, (xdgdir if g["xdg_set"] else None)
 
 
 def vrule(r):
@@ -305,7 +365,7 @@ def model_line(c, base):
     cmd = vlist([vrulefile(cwd_abs, c["globs"]),
                  vlist([vlist([vbytes(e), vbool(n)]) for e, n in c["types"]]),
                  vlist([vrulefile("", rf) for rf in c["ignore_files"]]),
-                 vrulefile("", c["global"])])
+                 vrulefile("", effective_global(c))])
     roots = []
     for r, sp in zip(c["roots"], c["spell"]):
         spelled = "./" if sp is None else sp.replace("ABS", base)
@@ -396,9 +456,7 @@ def build_case(c, base):
             pass
         else:
             materialise(p, r)
-    os.makedirs(os.path.join(base, "xdg", "git"), exist_ok=True)
-    with open(os.path.join(base, "xdg", "git", "ignore"), "w") as f:
-        f.write(rules_text(c["global"]))
+    write_global_env(c, base)
     for i, rf in enumerate(c["ignore_files"]):
         with open(os.path.join(base, "igf%d" % i), "w") as f:
             f.write(rules_text(rf))
@@ -406,8 +464,12 @@ def build_case(c, base):
 
 def run_rg(c, base):
     env = dict(os.environ)
-    env["XDG_CONFIG_HOME"] = os.path.join(base, "xdg")
-    env["HOME"] = os.path.join(base, "xdg", "nohome")
+    g = genv_of(c)
+    env["HOME"] = os.path.join(base, "home")
+    if g["xdg_set"]:
+        env["XDG_CONFIG_HOME"] = os.path.join(base, "xdg")
+    else:
+        env.pop("XDG_CONFIG_HOME", None)
     env.pop("RIPGREP_CONFIG_PATH", None)
     cwd = os.path.normpath(os.path.join(base, c["cwd"]))
     try:
@@ -494,7 +556,7 @@ def o_decide(c, fl, chain, n_above, comps, is_dir):
                 if op or (chain[i]["has_git"] and not fl["norequire"]):
                     break
         elif s == "global" and not fl["vcs"] and not fl["glob"] and in_repo:
-            op = o_file_opinion(c["global"], name, is_dir)
+            op = o_file_opinion(effective_global(c), name, is_dir)
         elif s == "explicit" and not fl["files"]:
             for rf in reversed(c["ignore_files"]):
                 op = o_file_opinion(rf, name, is_dir)
@@ -631,8 +693,13 @@ def features(c):
         f.append("-t/-T")
     if c["ignore_files"]:
         f.append("--ignore-file")
-    if c["global"]:
+    if effective_global(c):
         f.append("global")
+    g = genv_of(c)
+    f.append("genv:home=%s,xdg=%s,%s,%s" % (g["home"], g["xdg"], "XDG set" if g["xdg_set"] else "XDG unset",
+                                            "default" if g["default_present"] else "no default"))
+    if g["home"] == "noexcl" and g["xdg"] == "excl":
+        f.append("genv: ~/.gitconfig without excludesFile, XDG config with it")
     if c["max_depth"] is not None:
         f.append("--max-depth")
     f.append("layout:" + c["layout"])
@@ -677,8 +744,12 @@ def check_cases(ctx, cases, base0, stats):
             if in_rebase_class(c, diff) and model == rg:
                 ctx.known(KNOWN_REBASE, "args=%r cwd=%s differing=%r" % (rg_args(c, base), c["cwd"], diff))
             else:
-                ctx.violation("rg --files differs from the documented precedence of filters on: %r; command: cd %s && rg --files %s"
-                              % (diff[:6], c["cwd"], " ".join(a.replace(base, "$CASE") for a in rg_args(c, base))),
+                g = genv_of(c)
+                ctx.violation("rg --files differs from the documented precedence of filters on: %r; env: ~/.gitconfig=%s, %s/git/config=%s, "
+                              "git/ignore %s; command: cd %s && rg --files %s"
+                              % (diff[:4], g["home"], "$XDG_CONFIG_HOME" if g["xdg_set"] else "~/.config (XDG unset)", g["xdg"],
+                                 "present" if g["default_present"] else "absent", c["cwd"],
+                                 " ".join(a.replace(base, "$CASE") for a in rg_args(c, base))),
                               dict(kind=501, case=c, args=rg_args(c, base), rg=rg, oracle=ora, model=model, line=line))
         if model != rg:
             diff = sorted(set(model) ^ set(rg))
@@ -695,13 +766,13 @@ def lib_line_pair(c, base, o):
     parts = parse_top(m)
     mline = vlist([vlist([vbool(b) for b in o]), vbool(custom_empty), parts[1], parts[2], parts[3]])
     globs = [vbytes(rule_text(r)) for r in c["globs"]]
-    hline = vlist([vbytes(cwd_abs), vbytes(os.path.join(base, "xdg")), vlist([vbool(b) for b in o]),
+    hline = vlist([vbytes(cwd_abs), vbytes(os.path.join(base, "xdg") if genv_of(c)["xdg_set"] else ""), vlist([vbool(b) for b in o]),
                    vlist([] if custom_empty else [vbytes(".rgignore")]),
                    vlist([vbytes(os.path.join(base, "igf%d" % i)) for i in range(len(c["ignore_files"]))]),
                    vlist(globs), vlist([vlist([vbytes(e), vbool(n)]) for e, n in c["types"]]),
                    vopt(None if c["max_depth"] is None else str(c["max_depth"])),
                    vlist([vbytes("./" if sp is None else sp.replace("ABS", base)) for sp in c["spell"]]),
-                   vbool(c.get("follow", False))])
+                   vbool(c.get("follow", False)), vbytes(os.path.join(base, "home"))])
     return mline, hline
 
 
